@@ -34,15 +34,16 @@ ASSUMPTIONS = ['exactq (exact rational rounding) decides the behavioural effecti
                'identity/content of _prec_rounding, iv._prec and of the dict/list attributes of a context are read through getattr; '
                'an attribute that no longer exists after a refactoring is skipped (the behavioural probe and the prec/dps/pretty/trap_complex checks remain)',
                'bit-identity of clone and mp results is demanded for the same exact inputs at the same precision; both evaluations run in the same process state (warm caches)']
-LEVEL_TEXT = ('exploration: ~2*10^5 (quick) / ~2*10^6 (thorough) history steps on the real contexts, every step followed by the state '
-              'and effective-precision check of all other contexts; ~10^4 / ~10^5 clone-vs-mp equivalence probes over ~150 functions')
+LEVEL_TEXT = ('exploration: ~7*10^4 (quick) / ~9*10^5 (thorough) history steps on the real contexts, every step followed by the state '
+              'and effective-precision check of all other contexts, ~10^6 / ~10^7 wrapped-call exits checked; ~1.4*10^4 / ~1.7*10^5 '
+              'clone-vs-mp equivalence probes over ~185 functions')
 LEVEL_NOTE = 'trusted base: vf/exactq.py for the probe; histories not generated are not covered; thread-level interleaving is out of scope (single-threaded target)'
 TECHNIQUE = 'runtime monitoring: state-invariant monitor over interleaved multi-context histories + API-boundary wrappers + differential (clone vs mp) raw-result comparison'
 SHARD_TIMEOUT = {'quick': 600, 'thorough': 3000}
 
 N_SHARDS = 16
-HISTORIES = {'quick': 55, 'thorough': 700}          # per shard
-EQUIV = {'quick': 420, 'thorough': 5500}            # equivalence probes per shard (besides those inside histories)
+HISTORIES = {'quick': 110, 'thorough': 1400}          # per shard
+EQUIV = {'quick': 800, 'thorough': 10000}            # equivalence probes per shard (besides those inside histories)
 CPU_LIMIT = {'quick': 50.0, 'thorough': 760.0}      # a shard starts no new history/probe beyond this CPU time (counted)
 
 PRECS = [10, 15, 24, 53, 53, 64, 100, 113, 200, 333, 400, 401, 600, 1000]
@@ -54,7 +55,7 @@ CATALOG_FUNCS = ('exp ln sqrt cbrt sin cos tan atan asin acosh sinh tanh asinh p
                  'zeta altzeta hurwitz polylog bernpoly eulerpoly siegeltheta siegelz '
                  'erf erfc erfi ncdf ei e1 li si ci shi chi fresnels fresnelc erfinv expint gammainc betainc '
                  'besselj bessely besseli besselk hankel1 struveh struvel ber kei airyai airybi scorergi j0 '
-                 'besseljzero airyaizero coulombf angerj lommels1 '
+                 'besseljzero airyaizero coulombf coulombg angerj lommels1 '
                  'hyp0f1 hyp1f1 hyp1f2 hyp2f1 hyp2f2 hyp2f0 hyperu whitm whitw legendre chebyt chebyu hermite '
                  'legenp gegenbauer laguerre jacobi pcfd pcfu pcfw spherharm appellf1 '
                  'ellipk ellipe ellipf elliprf elliprd elliprg elliprc elliprj ellippi agm jtheta lambertw qp kleinj eta '
@@ -65,19 +66,19 @@ SPECIAL_FUNCS = ['zeta-rs', 'siegelz-rs', 'zetazero', 'nzeros', 'primepi2', 'qua
                  'findroot', 'polyroots', 'taylor', 'pade', 'limit', 'chebyfit', 'fourier', 'invertlaplace', 'odefun',
                  'det', 'inverse', 'lu_solve', 'qr_solve', 'eig', 'eigh', 'svd', 'expm', 'cholesky', 'norm', 'matmul',
                  'pslq', 'identify', 'findpoly', 'stieltjes', 'secondzeta', 'meijerg', 'hyper', 'hypercomb', 'nint_distance',
-                 'mpf-str', 'nstr', 'constants', 'fsum', 'fdot', 'linspace', 'autoprec', 'bernfrac', 'mpmathify-str']
+                 'mpf-str', 'nstr', 'constants', 'fsum', 'fdot', 'linspace', 'autoprec', 'bernfrac', 'mpmathify-str', 'coulombc']
 
 
 # composite entry points whose cost explodes with the precision: only called while the acting context is at <= 250 bits
 SLOW_SPECIAL = {'quadosc', 'nsum', 'nprod', 'zetazero', 'nzeros', 'secondzeta', 'stieltjes', 'limit', 'invertlaplace', 'zeta-rs',
                 'siegelz-rs', 'pslq', 'identify', 'findpoly', 'chebyfit', 'fourier', 'odefun', 'quad', 'quad-ts', 'meijerg', 'svd',
                 'eig', 'eigh', 'expm', 'findroot', 'diff', 'taylor', 'pade', 'autoprec', 'polyroots'}
-SLOW_CATALOG = {'angerj', 'appellf1', 'coulombf', 'lommels1', 'besseljzero', 'airyaizero', 'ellippi', 'angerj',
+SLOW_CATALOG = {'angerj', 'appellf1', 'coulombf', 'coulombg', 'lommels1', 'besseljzero', 'airyaizero', 'ellippi', 'angerj',
                 'legenq', 'barnesg', 'kei', 'ber', 'spherharm', 'pcfw', 'hyp3f2', 'hyp2f0', 'whitw', 'hyperu', 'betainc', 'erfinv',
                 'polylog', 'struveh', 'struvel', 'scorergi', 'siegelz', 'kleinj'}
 
 
-REAL_ARGS = {'ncdf', 'besseljzero', 'atan2', 'hypot', 'fmod', 'erfinv', 'siegeltheta', 'siegelz', 'betainc', 'spherharm', 'coulombf'}
+REAL_ARGS = {'ncdf', 'besseljzero', 'atan2', 'hypot', 'fmod', 'erfinv', 'siegeltheta', 'siegelz', 'betainc', 'spherharm', 'coulombf', 'coulombg'}
 
 
 CHEAP_CATEGORIES = ('elementary', 'intpart', 'numtheory', 'gamma')
@@ -443,6 +444,7 @@ def special_call(c, name, r, kind):
         'autoprec': lambda: c.autoprec(lambda x: c.exp(x) - 1)(mpf(10) ** -20 * k),
         'bernfrac': lambda: c.bernfrac(10 * k),
         'mpmathify-str': lambda: c.mpmathify('%d/7' % k),
+        'coulombc': lambda: c.coulombc(k, mpf(k) / 8),
     }
     return table[name], desc
 
